@@ -57,11 +57,31 @@ def redirect_ext_build():
     return ext, d
 
 
+def prune_cache(keep=4):
+    try:
+        ds = sorted((os.path.join(CACHE, d) for d in os.listdir(CACHE) if d.startswith("ext-")), key=os.path.getmtime)
+    except FileNotFoundError:
+        return
+    import shutil
+    for d in ds[:-keep]:
+        shutil.rmtree(d, ignore_errors=True)
+
+
 def ensure_ext():
     """Build (or load) the C++ unpack kernel. Returns (ok, message)."""
     ext, d = redirect_ext_build()
+    prune_cache()
     try:
         ext.lib  # noqa: B018
         return True, d
     except Exception as e:  # build can legitimately fail (no compiler): quanto falls back
         return False, repr(e)[:300]
+
+
+# Always redirect before anything can trigger a build; load the kernel once in this process so
+# that forked children inherit it (VERIF_NO_EXT=1 leaves the python fallback in charge).
+redirect_ext_build()
+if os.environ.get("VERIF_NO_EXT") != "1":
+    EXT_OK, EXT_MSG = ensure_ext()
+else:
+    EXT_OK, EXT_MSG = False, "disabled"
